@@ -3,6 +3,7 @@ package main
 import (
 	"flag"
 	"fmt"
+	"golang.org/x/tools/go/ssa"
 	"os"
 	"sort"
 	"strconv"
@@ -113,6 +114,26 @@ func main() {
 			fmt.Printf("%s  [%s] %s %s\n", keys[i], p.IPos(f.In), f.In.String(), f.Why)
 		}
 		fmt.Printf("%d findings\n", len(fs))
+	case "bounds":
+		p, err := Load(*repo, *goos, "", nil)
+		if err != nil {
+			fmt.Fprintln(os.Stderr, err)
+			os.Exit(2)
+		}
+		n := 0
+		for _, f := range p.RepoFuncs {
+			if len(pos) > 0 && !strings.Contains(fnName(f), pos[0]) {
+				continue
+			}
+			eachInstr(f, func(in ssa.Instruction) {
+				switch in.(type) {
+				case *ssa.IndexAddr, *ssa.Index, *ssa.Slice:
+					n++
+					fmt.Printf("%s\t%s\t%s\n", fnName(f), p.IPos(in), in.String())
+				}
+			})
+		}
+		fmt.Println(n, "sites")
 	case "explain":
 		if len(pos) != 1 {
 			usage()
